@@ -323,6 +323,94 @@ def check_equivalent_units(case, ctx):
                                 entry=name, column=k)
 
 
+def check_nddata_forms(case, ctx):
+    """The same numbers inside an NDData container (uncertainty as standard
+    deviation, variance or inverse variance; with / without unit and mask)
+    give the results of the plain-array call."""
+    import astropy.units as u
+    from astropy.nddata import (InverseVariance, NDData, StdDevUncertainty,
+                                VarianceUncertainty)
+    from astropy.table import QTable
+    from photutils.aperture import ApertureStats, aperture_photometry
+    from photutils.detection import DAOStarFinder
+    from photutils.psf import IterativePSFPhotometry, PSFPhotometry
+    with warnings.catch_warnings():
+        warnings.simplefilter('ignore')
+        X = R.make_context(case['scene'], 'f64', 'clean')
+    d = np.asarray(X.d, float)
+    e = np.asarray(X.e, float) * (1.0 + 0.5 * (np.arange(d.shape[1]) % 3))[None, :]
+    m = np.zeros(d.shape, bool)
+    if case['mask']:
+        m[3:5, :] = True
+    unit = u.Jy if case['unit'] else None
+    ukind = case['uncertainty']
+    if ukind == 'std':
+        unc = StdDevUncertainty(e, unit=unit)
+    elif ukind == 'var':
+        unc = VarianceUncertainty(e ** 2, unit=None if unit is None else unit ** 2)
+    else:
+        unc = InverseVariance(1.0 / e ** 2, unit=None if unit is None else unit ** -2)
+    nd = NDData(d, uncertainty=unc, mask=m if case['mask'] else None, unit=unit)
+    U = 1 if unit is None else unit
+    mk = m if case['mask'] else None
+    init = QTable()
+    init['x'] = np.asarray(X.init['x'], float)
+    init['y'] = np.asarray(X.init['y'], float)
+    init['flux'] = np.asarray(X.init['flux'], float) * U
+    ctx.event('uncertainty_' + ukind)
+    ctx.mark(ukind != 'std' or case['unit'])
+
+    def psf(cls, data, **kw):
+        if cls is PSFPhotometry:
+            ph = cls(X.psf.copy(), (5, 5), aperture_radius=4.0)
+        else:
+            ph = cls(X.psf.copy(), (5, 5), DAOStarFinder(X.thr * U, 4.0),
+                     aperture_radius=4.0, maxiters=1)
+        return ph(data, init_params=init.copy(), **kw)
+
+    calls = {
+        'PSFPhotometry': (lambda: psf(PSFPhotometry, nd),
+                          lambda: psf(PSFPhotometry, d * U, error=e * U, mask=mk)),
+        'IterativePSFPhotometry': (lambda: psf(IterativePSFPhotometry, nd),
+                                   lambda: psf(IterativePSFPhotometry, d * U,
+                                               error=e * U, mask=mk)),
+    }
+    if ukind == 'std':   # documented: StdDevUncertainty only
+        calls['aperture_photometry'] = (
+            lambda: aperture_photometry(nd, X.aper),
+            lambda: aperture_photometry(d * U, X.aper, error=e * U, mask=mk))
+        calls['ApertureStats'] = (
+            lambda: ApertureStats(nd, X.aper),
+            lambda: ApertureStats(d * U, X.aper, error=e * U, mask=mk))
+    for name, (fn_nd, fn_arr) in calls.items():
+        with warnings.catch_warnings():
+            warnings.simplefilter('ignore')
+            base = _flat(fn_arr())
+            try:
+                got = _flat(fn_nd())
+            except Exception as exc:  # noqa: BLE001
+                raise Violation('variant_raises',
+                                f'{name} succeeds for arrays but raises for '
+                                f'NDData({ukind}, unit={unit}): {exc!r:.200}',
+                                entry=name, rep='nddata_' + ukind)
+        for k, v in base.items():
+            w = got.get(k)
+            if w is None or w.shape != v.shape or not np.allclose(
+                    v, w, rtol=1e-7, atol=1e-9, equal_nan=True):
+                raise Violation('output_value',
+                                f'{name}: output {k} differs between the array '
+                                f'call and NDData with {ukind} uncertainty '
+                                f'(unit {unit})', entry=name,
+                                rep='nddata_' + ukind, key=k)
+
+
+@st.composite
+def nddata_cases(draw):
+    return {'scene': draw(scenes()),
+            'uncertainty': draw(st.sampled_from(['std', 'var', 'ivar'])),
+            'unit': draw(st.booleans()), 'mask': draw(st.booleans())}
+
+
 @st.composite
 def equiv_cases(draw):
     return {'scene': draw(scenes())}
@@ -341,6 +429,9 @@ SUBCHECKS = [
              'representation != float64 baseline; the matrix entries x '
              'representations is covered by sampling scenes',
              quick=(16, 25), thorough=(16, 300), budget_quick=100),
+    SubCheck('nddata_forms', nddata_cases(), check_nddata_forms,
+             'non-trivial = variance / inverse-variance uncertainty or a unit',
+             quick=(4, 8), thorough=(8, 150)),
     SubCheck('equivalent_units', equiv_cases(), check_equivalent_units,
              'every case: companion inputs in mJy with data in Jy are either '
              'rejected or give physically equal results',
